@@ -200,6 +200,13 @@ func TestC16Rapid(t *testing.T) {
 					c.Pre = append(c.Pre, "same-stem-other-extension")
 				}
 			}
+			if rapid.IntRange(0, 3).Draw(t, "preSubdir") == 0 {
+				// a subdirectory (never scanned) with a Spec defining the same devices: an old copy moved aside
+				sub := filepath.Join(last, rapid.SampledFrom([]string{"old", "0-backup", "zz.d"}).Draw(t, "subdirName"))
+				_ = os.MkdirAll(sub, 0o755)
+				_ = os.WriteFile(filepath.Join(sub, "moved-aside.yaml"), otherSpec("subdir"), 0o644)
+				c.Pre = append(c.Pre, "same-devices-in-a-subdirectory-of-the-last-directory")
+			}
 			if rapid.IntRange(0, 3).Draw(t, "preSpecial") == 0 {
 				// an entry that is neither a regular file nor a directory, under a name that sorts before or after
 				// whatever is generated and that the scan ignores
